@@ -159,6 +159,44 @@ pub fn fgsearch(n: usize, start: u64, count: u64, outfile: &str) {
     }
 }
 
+/// `vh hashsearch start count out`: (salt, message) pairs whose SHAKE-256 stream has unusually many rejected 16-bit words
+/// at the start (the inputs on which a buffered hash_to_point has to refill).  salt = index as 8 LE bytes, zero padded
+/// to 40; message = b"falcon".  Lines: `<salt hex> <msg hex> rej512=<rejections in the first 576 words> rej1024=<…1152>`.
+pub fn hashsearch(start: u64, count: u64, outfile: &str) {
+    use sha3::digest::{ExtendableOutput, Update, XofReader};
+    let next = Arc::new(AtomicU64::new(start));
+    let out = Arc::new(Mutex::new(std::io::BufWriter::new(std::fs::File::create(outfile).unwrap())));
+    let mut hs = vec![];
+    for _ in 0..16 {
+        let (next, out) = (next.clone(), out.clone());
+        hs.push(std::thread::spawn(move || loop {
+            let i0 = next.fetch_add(4096, Ordering::SeqCst);
+            if i0 >= start + count {
+                break;
+            }
+            for i in i0..(i0 + 4096).min(start + count) {
+                let mut salt = [0u8; 40];
+                salt[..8].copy_from_slice(&i.to_le_bytes());
+                let mut h = sha3::Shake256::default();
+                h.update(&salt);
+                h.update(b"falcon");
+                let mut r = h.finalize_xof();
+                let mut buf = [0u8; 2304];
+                r.read(&mut buf);
+                let rej = |words: usize| (0..words).filter(|&k| (((buf[2 * k] as u32) << 8) | buf[2 * k + 1] as u32) >= 61445).count();
+                let (r5, r10) = (rej(576), rej(1152));
+                if r5 >= 62 || r10 >= 112 {
+                    let mut o = out.lock().unwrap();
+                    writeln!(o, "{} {} rej512={r5} rej1024={r10}", crate::util::hex(&salt), crate::util::hex(b"falcon")).unwrap();
+                }
+            }
+        }));
+    }
+    for h in hs {
+        h.join().unwrap();
+    }
+}
+
 /// re-run the seeds listed in `infile` (one index per line)
 pub fn recheck(n: usize, infile: &str, outfile: &str) {
     let idx: Vec<u64> = std::fs::read_to_string(infile).unwrap().lines().filter_map(|l| l.trim().parse().ok()).collect();
